@@ -32,6 +32,9 @@ OPEN = '::vstd::prelude::verus!{\n'
 CLOSE = '\n} // verus!\n'
 
 
+LOST_HINTS = set()
+
+
 class Section:
     def __init__(self, kind, arg, lineno, src):
         self.kind, self.arg, self.lineno, self.src = kind, arg, lineno, src
@@ -188,14 +191,21 @@ def apply_fn_sections(s, fnsec, item_lo, item_hi, log, copies, skip=frozenset())
             ret = ret.replace('Self::', '')
             body = s[bo:bc + 1]
             copies.append('pub fn %s(%s) -> (r: %s)\n%s%s\n' % (sub.arg, params, ret, txt, body))
-        elif sub.kind == 'before':
-            a, b = find_anchor(s, m, sub.arg, bo, bc, where)
-            la = s.rfind('\n', 0, a) + 1
-            s = s[:la] + txt + s[la:]
-        elif sub.kind == 'after':
-            a, b = find_anchor(s, m, sub.arg, bo, bc, where)
-            le = s.find('\n', b)
-            s = s[:le + 1] + txt + s[le + 1:]
+        elif sub.kind in ('before', 'after'):
+            # statement-anchored proof hints: when the statement is gone the hint is dropped and the function is
+            # marked hint-less (a failure in it is then UNDECIDED, never a violation; success still counts)
+            try:
+                a, b = find_anchor(s, m, sub.arg, bo, bc, where)
+            except Lost as e:
+                LOST_HINTS.add(name)
+                log.append((where, 'lost-hint'))
+                continue
+            if sub.kind == 'before':
+                la = s.rfind('\n', 0, a) + 1
+                s = s[:la] + txt + s[la:]
+            else:
+                le = s.find('\n', b)
+                s = s[:le + 1] + txt + s[le + 1:]
         else:
             raise SystemExit('%s: unknown fn section %s' % (where, sub.kind))
         log.append((where, sub.kind))
@@ -205,6 +215,7 @@ def apply_fn_sections(s, fnsec, item_lo, item_hi, log, copies, skip=frozenset())
 def inject(s, vc_files, skip=frozenset()):
     """returns (text, info) where info has fn->props map, wrapped fn names, root text"""
     info = {'fns': {}, 'items': [], 'rewrites': []}
+    LOST_HINTS.clear()
     root_txt = []
     log = []
     deferred = []
@@ -367,6 +378,7 @@ def inject(s, vc_files, skip=frozenset()):
             raise Lost('module marker for %s' % mk)
         k = s.find('\n', k) + 1
         s = s[:k] + OPEN + top.text() + CLOSE + s[k:]
+    info['lost_hints'] = sorted(LOST_HINTS)
     info['root'] = '\n'.join(root_txt)
     info['log'] = log
     return s, info
